@@ -303,7 +303,34 @@ func main() {
 		var buf bytes.Buffer
 		buf.Write(src[:a])
 		buf.WriteString("verifcmd")
-		buf.Write(src[b:])
+		rest := string(src[b:])
+		// seams of the coordinator command: its listener, the life of what it starts, and the
+		// one loop that has no way out
+		used := false
+		for _, sm := range [][2]string{
+			{"svc.Run(cdCfg.webAddress)", "verifhook.ListenAndServe(cdCfg.webAddress, svc)"},
+			{"context.Background()", "verifhook.ProcessContext()"},
+			{"<-targetDiscovery.ActiveTargetsChan()", "verifhook.RecvOrExit(targetDiscovery.ActiveTargetsChan())"},
+			{"if err := targetDiscovery.WaitInit(tCtx)", "verifhook.Stagger(); if err := targetDiscovery.WaitInit(tCtx)"},
+		} {
+			if nm == "coordinator.go" && strings.Contains(rest, sm[0]) {
+				report.Seams = append(report.Seams, fmt.Sprintf("cmd/kvass/%s %s (x%d)", nm, sm[0], strings.Count(rest, sm[0])))
+				rest = strings.ReplaceAll(rest, sm[0], sm[1])
+				used = true
+			}
+		}
+		if used {
+			rest = `; import verifhook "tkestack.io/kvass/pkg/verifhook"` + rest
+			if !strings.Contains(rest, "context.") {
+				rest += "\nvar _ = context.TODO\n"
+			}
+		}
+		buf.WriteString(rest)
+		if used { // the generic hook needs go1.18 in the calling file (no loop-variable change below go1.22)
+			nb := append([]byte("//go:build go1.18\n\n"), buf.Bytes()...)
+			buf.Reset()
+			buf.Write(nb)
+		}
 		dst := filepath.Join(*out, "cmd__"+nm)
 		must(os.WriteFile(dst, buf.Bytes(), 0o644))
 		overlay[filepath.Join(*repo, "pkg/verifcmd", nm)] = dst
